@@ -149,12 +149,14 @@ def main():
             for lazy in ((False, True) if quant else (False,)):
                 src = show(t, lazy)
                 ltag = tag + (":lazy" if lazy else "")
-                for fl in [""] + (["i"] if letters else []) + (["s"] if dot else []):
+                for fl in [""] + (["i"] if letters else []) + (["s"] if dot else []) + (["is", "si"] if dot else []):     # the two flags together (and /s with the nocase modifier below)
                     a = ast(t, "i" in fl, "s" in fl)
                     jobs.append(prog(pid(), src, a, "s", "", fl, ltag + (":/" + fl if fl else "")))
                     jobs.append(prog(pid(), src, a, "m", "", fl, ltag + (":/" + fl if fl else "")))
                 if letters:
                     jobs.append(prog(pid(), src, ast(t, True, False), "s", "nocase", "", ltag + ":nocase"))
+                if dot:
+                    jobs.append(prog(pid(), src, ast(t, True, True), "s", "nocase", "s", ltag + ":/s+nocase"))
                 jobs.append(prog(pid(), src, ast(t, False, False), "s", "fullword", "", ltag + ":fullword"))
                 if not has(t, lambda x: x[0] == "l" and x[1] in ("\\W", "[^a]", ".", "\\b", "\\B")):
                     widej.append(prog(pid(), src, ast(t, False, False), "s", "wide", "", ltag + ":wide"))
